@@ -7,5 +7,6 @@ mkdir -p build/bin evidence
 sed "s#@REPO@#${VERIF_REPO:-/repo}#" harness/go.mod.in > harness/go.mod
 cp "${VERIF_REPO:-/repo}/go.sum" harness/go.sum
 (cd harness && go build -tags verif -o ../build/bin/ ./cmd/...)
-./build/bin/extract lean/PolyVerif/Gen
-(cd lean && lake build)
+for x in build/bin/extract-*; do "$x" lean/PolyVerif/Gen; done
+
+(cd lean && lake build PolyVerif $(ls Exe/*.lean | sed "s#Exe/\(.*\)\.lean#pm_\1#"))
